@@ -601,6 +601,82 @@ def flush_only_on_close(ctx):
         judge(ctx, w, store, None, [], getattr(store, 'closed_with', None), wit, None)
 
 
+def failed_save_then_more_requests(ctx):
+    """The storage refuses the first save of a recording; the service writes once more into the recording (item assignment) and saves it
+    again - at once (both save requests inside one flush interval) or after the flusher had its turn. The same request sequence goes
+    directly into the storage and through the asynchronous cassette around an identical one: what is stored in the end is the same."""
+    from playback.tape_cassettes.asynchronous.async_record_only_tape_cassette import AsyncRecordOnlyTapeCassette
+    from playback.tape_cassettes.in_memory.in_memory_tape_cassette import InMemoryTapeCassette
+
+    class FlakyStore(InMemoryTapeCassette):
+        def __init__(self, fail_first):
+            super(FlakyStore, self).__init__()
+            self.fail_first, self.attempts = fail_first, 0
+
+        def _save_recording(self, recording):
+            self.attempts += 1
+            if self.attempts <= self.fail_first:
+                raise IOError('storage refused the save (injected)')
+            return super(FlakyStore, self)._save_recording(recording)
+
+    def drive(cassette, late_write, wait):
+        rec = cassette.create_new_recording('Cat')
+        rec.set_data('input', {'value': [1, 2]})
+        rec.add_metadata({'m': 1})
+        try:
+            cassette.save_recording(rec)
+        except IOError:
+            pass
+        wait()
+        if late_write:
+            try:
+                rec['late output'] = {'value': 'written after the refused save'}
+            except Exception:
+                return 'late write refused'
+        try:
+            cassette.save_recording(rec)
+        except IOError:
+            pass
+        return None
+
+    def stored(store):
+        out = []
+        for rid in store.get_all_recording_ids():
+            r = store.get_recording(rid)
+            out.append((sorted(r.get_all_keys()), r.get_metadata().get('m')))
+        return sorted(out)
+    for fail_first in (1, 0, 2):
+        for late_write in (True, False):
+            for interval, wait_s in ((30, 0.0), (0.002, 0.08)):
+                direct = FlakyStore(fail_first)
+                note_d = drive(direct, late_write, lambda: None)
+                wrapped = FlakyStore(fail_first)
+                cas = AsyncRecordOnlyTapeCassette(wrapped, flush_interval=interval, timeout_on_close=60)
+                cas.start()
+                try:
+                    note_a = drive(cas, late_write, lambda: time.sleep(wait_s))
+                finally:
+                    cas.close()
+                wit = {'failed_save_then_more_requests': True, 'saves_refused_first': fail_first, 'late_write': late_write, 'flush_interval': interval}
+                ctx.case(('failed_save', fail_first, late_write, interval), nontrivial=True)
+                ctx.count('request_sequences_with_a_refused_save_compared_with_direct_recording')
+                if note_d is not None:
+                    ctx.count('direct_twin_refused_the_late_write')       # (then there is nothing to compare the asynchronous run with)
+                    continue
+                sd, sa = stored(direct), stored(wrapped)
+                if fail_first == 0 and late_write and note_a is None and len(sd) == len(sa) == 1 and sd[0][1] == sa[0][1] and \
+                        sd[0][0] == ['input', 'late output'] and sa[0][0] == ['input']:
+                    # classified by mechanism: healthy storage, the recording is saved, written to by ITEM ASSIGNMENT and saved again
+                    ctx.finding('async-item-assignment-after-save-dropped',
+                                'a recording that was saved, then written to by item assignment (recording[key] = value) and saved again is stored '
+                                'WITH that write when recording directly and WITHOUT it through the asynchronous cassette (the wrapper forwards the '
+                                'write through the public set_data of the wrapped recording, which refuses writes after its save)', wit)
+                    continue
+                if stored(wrapped) != stored(direct) or note_a is not None:
+                    ctx.violation('after a refused save followed by %s another save the asynchronous cassette stored %r, recording directly stores %r' % (
+                        'a late write and' if late_write else '', stored(wrapped), stored(direct)), wit)
+
+
 def idle_start_then_clock_jump(ctx):
     """The asynchronous cassette is started and stays idle; the wall clock moves on by three days (a long quiet week-end, or a clock step);
     then recordings are made. Whatever the flusher thread does periodically must survive a long stretch in which nothing was flushed."""
@@ -785,6 +861,7 @@ def run(ctx):
         clock_jump_during_close(ctx)
         idle_start_then_clock_jump(ctx)
         flush_only_on_close(ctx)
+        failed_save_then_more_requests(ctx)
         steady_pace(ctx, 1300 if ctx.quick else 2500)
         none_timeout.finish()
     if not ctx.counters.get('operations_checked'):
@@ -792,6 +869,8 @@ def run(ctx):
 
 
 def replay(ctx, wit):
+    if wit.get('failed_save_then_more_requests'):
+        return failed_save_then_more_requests(ctx)
     if wit.get('flush_only_on_close'):
         return flush_only_on_close(ctx)
     if wit.get('idle_start_then_clock_jump'):
